@@ -179,3 +179,50 @@ Proof.
   - intro HJ. apply stable_implies_poles_inside. apply stable_from_jury; [exact Ha0|exact HJ].
   - intro HP. exact (jury_from_poles a0 a1 a2 Ha0 HP).
 Qed.
+
+(* ---------------------------------------------------------------- Spec.jury
+   the boolean function evaluated by the checker of family "coef" *)
+Lemma jury3_value a0 a1 a2 : a0 <> 0%Qc ->
+  jury [a0; a1; a2] =
+  Some (if Qc_eqb a2 0
+        then (if Qc_eqb a1 0 then true else Qc_ltb (a1 * a1) (a0 * a0))
+        else (Qc_ltb ((a2 / a0) * (a2 / a0)) 1 && Qc_ltb (a1 / a0) (1 + a2 / a0)
+              && Qc_ltb (- (a1 / a0)) (1 + a2 / a0))).
+Proof.
+  intro Ha0. apply Qc_eqb_false in Ha0. unfold jury, trim. cbn [rev app dropz].
+  destruct (Qc_eqb a2 0); [|reflexivity].
+  destruct (Qc_eqb a1 0); [|reflexivity].
+  rewrite Ha0. reflexivity.
+Qed.
+
+Theorem jury_decides a0 a1 a2 b : a0 <> 0%Qc -> jury [a0; a1; a2] = Some b ->
+  (b = true <-> poles_inside [a0; a1; a2]).
+Proof.
+  intros Ha0 HJ. rewrite jury3_value in HJ by exact Ha0. injection HJ as <-.
+  rewrite <- (jury_iff_poles a0 a1 a2 Ha0).
+  pose proof (QR_nz a0 Ha0) as HA0.
+  destruct (Qc_eqb a2 0) eqn:E2.
+  - apply Qc_eqb_spec in E2. subst a2. rewrite QR_0.
+    replace (0 / QR a0)%R with 0%R by (field; exact HA0).
+    destruct (Qc_eqb a1 0) eqn:E1.
+    + apply Qc_eqb_spec in E1. subst a1. rewrite QR_0.
+      replace (0 / QR a0)%R with 0%R by (field; exact HA0).
+      split; [intros _; repeat split; lra|reflexivity].
+    + rewrite Qc_ltb_R, !QR_mul.
+      set (t := (QR a1 / QR a0)%R).
+      assert (Ht : QR a1 = (t * QR a0)%R) by (unfold t; field; exact HA0).
+      rewrite Ht. assert (0 < QR a0 * QR a0)%R by nra.
+      split.
+      * intro H1. assert (t * t < 1)%R by nra. repeat split; nra.
+      * intros (_ & H1 & H2). assert (t * t < 1)%R by nra. nra.
+  - rewrite !andb_true_iff, !Qc_ltb_R.
+    rewrite !QR_add, QR_opp, !QR_mul, QR_1, !QR_div by exact Ha0.
+    tauto.
+Qed.
+
+Theorem jury_decides_order1 a0 a1 b : a0 <> 0%Qc -> jury [a0; a1] = Some b ->
+  (b = true <-> poles_inside [a0; a1]).
+Proof.
+  intros Ha0 HJ. rewrite <- poles_order1_as_2. apply jury_decides; [exact Ha0|].
+  rewrite <- HJ. unfold jury, trim. cbn [rev app dropz]. reflexivity.
+Qed.
